@@ -20,6 +20,8 @@ N9  any()/all() over a literal    any(E(k, v) for k, v in {...}.items())  ==>  E
 
 N10 getattr(x, "name") / setattr(x, "name", v) with an identifier literal  ==>  x.name / x.name = v
 
+N11 boolean constants produced by substitution are folded (True or x, if False: ..., see _FoldBool)
+
 N2  dict.update with keywords / a literal dict on such an attribute, as a statement
         self._cache.update(a=x, b=y)      /     self._cache.update({"a": x, "b": y})
     ==> self._cache["a"] = x; self._cache["b"] = y      (same order; dict.update assigns the keys one after another)
@@ -456,13 +458,88 @@ _MUTATORS = {"update", "pop", "popitem", "clear", "setdefault", "append", "exten
 
 
 def _const(e):
+    """a constant, or a reference to module-level data (NAME / module.NAME / module.NAME[0]): the same object every time the table is iterated"""
     if isinstance(e, ast.Constant):
         return True
     if isinstance(e, ast.UnaryOp) and isinstance(e.op, ast.USub) and isinstance(e.operand, ast.Constant):
         return True
     if isinstance(e, ast.Tuple) and all(_const(x) for x in e.elts):
         return True
+    if isinstance(e, ast.Attribute) and _chain_root(e) is not None:
+        return True
+    if isinstance(e, ast.Name) and (e.id.isupper() or e.id.startswith("_") and e.id[1:].isupper()):
+        return True
+    if isinstance(e, ast.Subscript) and isinstance(e.slice, ast.Constant) and _const(e.value):
+        return True
     return False
+
+
+class _FoldBool(ast.NodeTransformer):
+    """N11: boolean constants left behind by N3/N4 substitution are folded:  True or x -> True, False or x -> x, True and x -> x, False and x -> False,
+    not True -> False;  `if True: A else: B` -> A,  `if False: A else: B` -> B.  (`x or True` is NOT folded: x is still evaluated.)"""
+
+    def __init__(self):
+        self.count = 0
+
+    @staticmethod
+    def _cb(e):
+        return isinstance(e, ast.Constant) and isinstance(e.value, bool)
+
+    def visit_BoolOp(self, n):
+        self.generic_visit(n)
+        vals = list(n.values)
+        is_or = isinstance(n.op, ast.Or)
+        out = []
+        for i, v in enumerate(vals):
+            if self._cb(v):
+                if v.value == is_or:            # True in an or / False in an and: decides, nothing after it is evaluated
+                    out.append(v)
+                    break
+                self.count += 1
+                continue                        # neutral element
+            out.append(v)
+        if not out:
+            self.count += 1
+            return ast.copy_location(ast.Constant(value=not is_or), n)
+        if len(out) == 1:
+            if len(vals) != 1:
+                self.count += 1
+            return out[0]
+        if self._cb(out[-1]) and len(out) < len(vals):
+            self.count += 1
+        n.values = out
+        return n
+
+    def visit_UnaryOp(self, n):
+        self.generic_visit(n)
+        if isinstance(n.op, ast.Not) and self._cb(n.operand):
+            self.count += 1
+            return ast.copy_location(ast.Constant(value=not n.operand.value), n)
+        return n
+
+    def _body(self, stmts):
+        out = []
+        for st in stmts:
+            st = self.visit(st)
+            if isinstance(st, ast.If) and self._cb(st.test):
+                self.count += 1
+                out += (st.body if st.test.value else st.orelse)
+            else:
+                out.append(st)
+        return out
+
+    def generic_visit(self, node):
+        node = super().generic_visit(node)
+        for fld in ("body", "orelse", "finalbody"):
+            v = getattr(node, fld, None)
+            if isinstance(v, list) and v and isinstance(v[0], ast.stmt):
+                new = self._body(v)
+                if fld == "body" and not new:
+                    new = [ast.copy_location(ast.Pass(), v[0])]
+                setattr(node, fld, new)
+        for h in getattr(node, "handlers", []) or []:
+            h.body = self._body(h.body) or [ast.Pass()]
+        return node
 
 
 def _module_tables(tree):
@@ -1011,6 +1088,8 @@ def normalise(tree):
     aa.visit(tree)
     gs = _GetSetAttr()
     gs.visit(tree)
+    fb = _FoldBool()
+    fb.visit(tree)
     n_flags = 0
     for fn in [n for n in ast.walk(tree) if isinstance(n, (ast.FunctionDef, ast.AsyncFunctionDef))]:
         n_flags += _inline_flags(fn)
@@ -1024,4 +1103,4 @@ def normalise(tree):
     _Updates().visit(tree)
     n_upd = sum(1 for n in ast.walk(tree) if isinstance(n, ast.Assign)) - before
     ast.fix_missing_locations(tree)
-    return tree, {"aliases_inlined": n_alias, "update_keys_split": n_upd, "table_loops_unrolled": n_unrolled, "wrappers_inlined": n_inlined, "expression_helpers_inlined": n_expr, "noreturn_helpers_inlined": n_noret, "flags_inlined": n_flags, "dict_literals_propagated": n_dict, "any_all_expanded": aa.count, "getattr_setattr_folded": gs.count, "inlined_helpers": sorted(set(_INLINED))}
+    return tree, {"aliases_inlined": n_alias, "update_keys_split": n_upd, "table_loops_unrolled": n_unrolled, "wrappers_inlined": n_inlined, "expression_helpers_inlined": n_expr, "noreturn_helpers_inlined": n_noret, "flags_inlined": n_flags, "dict_literals_propagated": n_dict, "any_all_expanded": aa.count, "getattr_setattr_folded": gs.count, "boolean_constants_folded": fb.count, "inlined_helpers": sorted(set(_INLINED))}
